@@ -79,6 +79,10 @@ class Scenario:
         self.notes = []
         self.cost = {}        # per-op event counters (C14/C15)
         self.subject = None
+        self.xchecks = []
+        self.xcheck_left = int(self.opts.get('xcheck', 0))
+        self.xcheck_every = int(self.opts.get('xcheck_every', 7))
+        self.nqueries_oracle = 0
         self.rawvals = {}
         self._raw = None
         self.deferred = []
@@ -397,7 +401,15 @@ class Scenario:
         sc = z3.simplify(cond)
         if z3.is_true(sc):
             return
-        if self.E.check(z3.Not(cond)):
+        bad = self.E.check(z3.Not(cond))
+        if self.xcheck_left > 0 and (self.nqueries_oracle % self.xcheck_every) == 0:
+            # second opinion: the same query is written out as SMT-LIB2 and decided by cvc5 after the path
+            self.xcheck_left -= 1
+            s2 = z3.Solver()
+            s2.add(self.E.solver.assertions())
+            s2.add(z3.Not(cond))
+            self.xchecks.append((s2.to_smt2(), 'sat' if bad else 'unsat'))
+        if bad:
             raise Violation(prop, clause, detail, self.model_values(z3.Not(cond)))
 
     def model_values(self, extra):
